@@ -51,6 +51,8 @@ def swarm(rng, tier: str, *, profile: str = "edit") -> dict:
         "dup_values": on(0.25, 0.3),
         "in_body_comment": on(0.2, 0.3),
         "paren_call": on(0.3, 0.5),
+        "nested_attrpath": on(0.12, 0.25),
+        "multiline_boost": False,
         "lambda": on(0.35, 0.45),
         "with": on(0.2, 0.35),
         "assert": on(0.1, 0.25),
@@ -121,7 +123,7 @@ class DocGen:
             if cfg["eol_comments"] and rng.random() < 0.2:
                 eol = " " + self.comment("e")
             r = rng.random()
-            if cfg["attrpath"] and roots and r < 0.3 and depth == 0:
+            if cfg["attrpath"] and roots and r < 0.3 and (depth == 0 or cfg.get("nested_attrpath")):
                 root = rng.choice(roots)
                 k = rng.randint(1, 3)
                 subs = rng.sample(["x", "y", "z", "t"], k)
@@ -148,7 +150,7 @@ class DocGen:
                     nm = rng.choice(QUOTED)
                     if any(l.lstrip().startswith(fmt_name(nm) + " ") for l in lines):
                         continue
-                sub = self.members(depth + 1, ind + 2, NAMES, [], in_let=False)
+                sub = self.members(depth + 1, ind + 2, NAMES, ["srv", "opt"] if cfg.get("nested_attrpath") else [], in_let=False)
                 rec = "rec " if cfg["rec"] and rng.random() < 0.2 else ""
                 lines.extend(pre)
                 if not sub:
@@ -354,11 +356,15 @@ class OpGen:
         self.cfg = cfg
         self.tag = seed_tag % 9000 + 1000
         self.n = 0
+        self.removed: list = []  # (depth, path) of successful removals so far
 
     def fresh_value(self) -> str:
         if self.cfg.get("dup_values") and self.rng.random() < 0.7:
             return self.rng.choice(["true", "true", "1", '"x"'])
         self.n += 1
+        if self.cfg.get("multiline_boost") and self.rng.random() < 0.3:
+            b = self.tag * 1000 + self.n
+            return self.rng.choice(["[\n  %d\n  %d\n]", "{\n  k = %d;\n  j = %d;\n}"]) % (b, b + 1)
         base = self.tag * 1000 + self.n
         r = self.rng.random()
         if not self.cfg.get("rich_values") or r < 0.55:
@@ -409,8 +415,13 @@ class OpGen:
                     if is_rm:
                         return {"op": "rm", "path": npath(depth, segs)}
                     return {"op": "set", "path": npath(depth, segs), "value": self.fresh_value()}
-            if r < 0.75:
+            if r < 0.68:
                 return {"op": "rm", "path": npath(depth, (rng.choice(FRESH), ) + ((rng.choice(FRESH),) if rng.random() < 0.4 else ()))}
+            if r < 0.75:
+                # a missing key below an existing explicit set, named like the leaf of an attrpath binding
+                sets = [p for p, k, ap in existing if k == "set" and not ap]
+                if sets:
+                    return {"op": "rm", "path": npath(depth, rng.choice(sets) + (rng.choice(["x", "y", "z", "t", "i", "j"]),))}
             if r < 0.85:
                 roots = sorted({p[0] for p, _, ap in existing if ap and len(p) > 1})
                 if roots:
@@ -428,8 +439,15 @@ class OpGen:
         if is_rm:
             if usable:
                 p, _, _ = rng.choice(usable)
+                self.removed.append((depth, p))
                 return {"op": "rm", "path": npath(depth, p)}
             is_rm = False
+        if self.removed and rng.random() < 0.15:
+            # write below the root of something removed earlier in this history (a pruned attrpath root, an
+            # emptied parent): state the live object may have kept about it must not matter
+            d0, p0 = rng.choice(self.removed)
+            p = p0[:1] + (rng.choice(["x", "nu", "desc"]),)
+            return {"op": "set", "path": npath(d0, p), "value": self.fresh_value()}
         r = rng.random()
         if usable and r < 0.4:
             cands = [p for p, k, _ in usable if k in ("leaf", "ref")] or [p for p, _, _ in usable]
